@@ -216,3 +216,43 @@ Proof.
   | option_map _ ?o = _ => destruct o; cbn in H
   end; discriminate.
 Qed.
+
+(** Whatever the decoder accepts is a text of Unicode scalar values (so it can be
+    encoded again: no UnicodeEncodeError on decoded text). *)
+Lemma utf8_decode_valid_aux n : forall l t,
+  (length l <= n)%nat -> utf8_decode l = Some t -> valid_text t = true.
+Proof.
+  induction n as [|n IH]; intros l t Hl H.
+  { destruct l; [apply some_inj in H; subst; reflexivity | cbn in Hl; lia]. }
+  destruct l as [|b0 r0]; [apply some_inj in H; subst; reflexivity|].
+  cbn [utf8_decode] in H. cbn [length] in Hl.
+  destruct (N.ltb_spec b0 128).
+  { destruct (utf8_decode r0) as [t0|] eqn:E; [|discriminate]. cbn [option_map] in H.
+    apply some_inj in H; subst t. cbn [valid_text forallb]. fold (valid_text t0).
+    rewrite (IH r0 t0 ltac:(lia) E). unfold valid_cp. lia. }
+  destruct (in_range 194 223 b0) eqn:E1.
+  { destruct r0 as [|b1 r1]; [discriminate|]. destruct (is_cont b1) eqn:E2; [|discriminate].
+    cbn [length] in Hl.
+    destruct (utf8_decode r1) as [t0|] eqn:E; [|discriminate]. cbn [option_map] in H.
+    apply some_inj in H; subst t. cbn [valid_text forallb]. fold (valid_text t0).
+    rewrite (IH r1 t0 ltac:(lia) E). unfold valid_cp, is_cont, in_range in *. lia. }
+  destruct (in_range 224 239 b0) eqn:E2.
+  { destruct r0 as [|b1 [|b2 r2]]; try discriminate.
+    match type of H with (if ?c then _ else _) = _ => destruct c eqn:E3 end; [|discriminate].
+    cbn [length] in Hl.
+    destruct (utf8_decode r2) as [t0|] eqn:E; [|discriminate]. cbn [option_map] in H.
+    apply some_inj in H; subst t. cbn [valid_text forallb]. fold (valid_text t0).
+    rewrite (IH r2 t0 ltac:(lia) E). unfold valid_cp, is_cont, in_range in *.
+    destruct (N.eqb_spec b0 224); destruct (N.eqb_spec b0 237); lia. }
+  destruct (in_range 240 244 b0) eqn:E3; [|discriminate].
+  destruct r0 as [|b1 [|b2 [|b3 r3]]]; try discriminate.
+  match type of H with (if ?c then _ else _) = _ => destruct c eqn:E4 end; [|discriminate].
+  cbn [length] in Hl.
+  destruct (utf8_decode r3) as [t0|] eqn:E; [|discriminate]. cbn [option_map] in H.
+  apply some_inj in H; subst t. cbn [valid_text forallb]. fold (valid_text t0).
+  rewrite (IH r3 t0 ltac:(lia) E). unfold valid_cp, is_cont, in_range in *.
+  destruct (N.eqb_spec b0 240); destruct (N.eqb_spec b0 244); lia.
+Qed.
+
+Lemma utf8_decode_valid l t : utf8_decode l = Some t -> valid_text t = true.
+Proof. apply (utf8_decode_valid_aux (length l)). lia. Qed.
